@@ -64,6 +64,17 @@ def rule_tofrom(ctx: Ctx):
                 regs = [e for e in seg if e.kind == "call" and isinstance(e.term.func, ast.Attribute) and e.term.func.attr == "add_transitions"
                         and e.term.args and show(e.term.args[0]) == t]
                 on_origin = [e for e in regs if xshow(e.term.func.value, evs) == f"{xshow(it.x['elem'], evs)}.transitions"]
+                if len(regs) == 1 and len(on_origin) == 1:
+                    # collected through a list that is handed to add_transitions afterwards (a generator's yields, a local list)
+                    apps = [e for e in seg if e.kind == "call" and isinstance(e.term.func, ast.Attribute) and e.term.func.attr == "append"
+                            and e.term.args and show(e.term.args[0]) == t]
+                    for a_ in apps:
+                        lst = show(a_.term.func.value)
+                        later = [e for e in evs if e.kind == "call" and e.idx > a_.idx and isinstance(e.term.func, ast.Attribute)
+                                 and e.term.func.attr == "add_transitions" and e.term.args and show(e.term.args[0]) == lst]
+                        if later:
+                            regs = regs + [later[0]]
+                            break
                 rep.check(len(on_origin) == 1 and len(regs) == 2, "C15.to/from", it.loc(),
                           "each transition is registered on its origin state and collected in the returned list", fr.key,
                           "; ".join(e.show() for e in regs))
